@@ -121,7 +121,7 @@ func mRunCluster(idx int) *mResult {
 	follower := uint32(rng.Range(8, 14))
 	var stepdown uint32
 	if !long && rng.Chance(1, 2) {
-		stepdown = follower + uint32(rng.PickInt(0, 10, 40))
+		stepdown = follower + uint32(rng.PickInt(10, 100))
 	}
 	dropP := float32(rng.PickInt(0, 0, 2, 10)) / 100
 	cfgs := make([]raft.Config, n)
@@ -213,7 +213,11 @@ func mRunCluster(idx int) *mResult {
 	doWrite := func(node int, r *vw.Rng) *mOp {
 		op := newOp(mWrite, node)
 		term := hs[node].GetTerm()
-		switch r.Intn(10) {
+		k := 9
+		if r != nil {
+			k = r.Intn(10)
+		}
+		switch k {
 		case 0:
 			term += 1000 // no leader can have this term during the run
 			op.BadTerm = true
@@ -626,6 +630,139 @@ func mRunCluster(idx int) *mResult {
 			}
 			res.Stats["cu_probes"]++
 			cl.HealAll(0)
+		}()
+	}
+
+	// ---- directed message-level scenarios (short cases, quiet network), using the hold-and-release layer
+	if !long && !roStuck {
+		waitFor := func(cond func() bool, d time.Duration) bool {
+			end := time.Now().Add(d)
+			for !cond() && time.Now().Before(end) {
+				time.Sleep(time.Millisecond)
+			}
+			return cond()
+		}
+		otherLeader := func(not int, d time.Duration) int {
+			w := -1
+			waitFor(func() bool {
+				for _, l := range leaders() {
+					if l != not {
+						w = l
+						return true
+					}
+				}
+				return false
+			}, d)
+			return w
+		}
+		// a leader that is alone in believing so and gets a command acknowledged right now
+		stableLeader := func() int {
+			end := time.Now().Add(4 * time.Second)
+			for time.Now().Before(end) {
+				if ls := leaders(); len(ls) == 1 {
+					if doWrite(ls[0], nil).Out == mOk {
+						return ls[0]
+					}
+				}
+				time.Sleep(2 * time.Millisecond)
+			}
+			return -1
+		}
+		allReads := func(pw *sync.WaitGroup, node int, p int64) {
+			for _, er := range elemReads {
+				pw.Add(1)
+				go func(er elemRead) { defer pw.Done(); lookupAt(node, er, p) }(er)
+			}
+			pw.Add(1)
+			go func() { defer pw.Done(); doRead(node) }()
+		}
+		// (1) "new leader before its NOP": X is acknowledged by leader A while the followers get the entry but not its
+		// commit; A is cut off; acknowledgements among the followers are held, so the winner of the election holds X
+		// unapplied and cannot commit its NOP; every verified read is requested there; then everything is released.
+		for rep := 0; rep < 2; rep++ {
+			a := stableLeader()
+			if a < 0 {
+				break
+			}
+			for j := 0; j < n; j++ {
+				if j != a {
+					cl.Hold(a, j, raft.VerifHoldQ, raft.VerifCommitHB)
+				}
+			}
+			x := doWrite(a, nil)
+			ok := x.Out == mOk
+			isolate(a)
+			for j := 0; j < n; j++ {
+				if j != a {
+					cl.Release(a, j, true)
+					for k := 0; k < n; k++ {
+						if ok && k != a && k != j {
+							cl.Hold(j, k, raft.VerifHoldQ, raft.VerifAcks)
+						}
+					}
+				}
+			}
+			var pw sync.WaitGroup
+			if ok {
+				if w := otherLeader(a, 3*time.Second); w >= 0 {
+					res.Stats["cu_scenario_stuck_new_leader_armed"]++
+					allReads(&pw, w, x.R1)
+					time.Sleep(10 * time.Millisecond)
+				}
+			}
+			cl.ReleaseAll(false)
+			cl.HealAll(0)
+			pw.Wait()
+			res.Stats["cu_scenario_stuck_new_leader"]++
+		}
+		// (2) "held acknowledgements": a write and verified reads are in flight at leader L while everything sent TO L
+		// is held; L is cut off, a new leader acknowledges a newer command; more verified reads are requested at L;
+		// the held messages are released in order.
+		func() {
+			l := stableLeader()
+			if l < 0 {
+				return
+			}
+			for j := 0; j < n; j++ {
+				if j != l {
+					cl.Hold(j, l, raft.VerifHoldQ, raft.VerifAll)
+				}
+			}
+			var pw sync.WaitGroup
+			pw.Add(1)
+			go func() { defer pw.Done(); doWrite(l, nil) }()
+			time.Sleep(time.Millisecond)
+			pw.Add(1)
+			go func() { defer pw.Done(); doRead(l) }()
+			time.Sleep(12 * tick)
+			for j := 0; j < n; j++ {
+				if j != l {
+					cl.Link(l, j, 1)
+				}
+			}
+			var y *mOp
+			if nl := otherLeader(l, 3*time.Second); nl >= 0 {
+				for try := 0; try < 10 && y == nil; try++ {
+					if nl = otherLeader(l, time.Second); nl >= 0 {
+						if op := doWrite(nl, nil); op.Out == mOk {
+							y = op
+						}
+					}
+				}
+			}
+			if y != nil {
+				res.Stats["cu_scenario_held_acks_armed"]++
+				allReads(&pw, l, y.R1)
+				time.Sleep(30 * time.Millisecond)
+			}
+			for j := 0; j < n; j++ {
+				if j != l {
+					cl.Release(j, l, false)
+				}
+			}
+			cl.HealAll(0)
+			pw.Wait()
+			res.Stats["cu_scenario_held_acks"]++
 		}()
 	}
 
